@@ -146,11 +146,28 @@ pub fn run(args: &Args) -> i32 {
             }
         }
     }
+    // per-process state (hash seeds, lazily built tables) differs from one process to the next: the synthetic projects are converted in
+    // five more fresh processes, and every one of them must agree with the first
+    let synthetic: Vec<String> = paths.iter().filter(|p| p.contains("/gen/synthetic")).cloned().collect();
+    let mut fresh_disagree = std::collections::HashSet::new();
+    if !synthetic.is_empty() {
+        for _ in 0..5 {
+            if let Ok(o) = Command::new(&exe).args(["c05", "--worker", "convert", "--paths", &synthetic.join("\n")]).stdout(Stdio::piped()).stderr(Stdio::null()).output() {
+                for l in String::from_utf8_lossy(&o.stdout).lines() {
+                    if let Some((p, h)) = l.strip_prefix("C05 ").and_then(|r| r.split_once('\t')) {
+                        if fresh.get(p).map(|x| x.as_str()) != Some(h) {
+                            fresh_disagree.insert(p.to_string());
+                        }
+                    }
+                }
+            }
+        }
+    }
     for (i, p) in paths.iter().enumerate() {
         let h1 = first[i].as_ref().map(|t| md5ish(t));
         cw.write(json!({"op": "noop", "label": format!("convert:{}", p.rsplit('/').next().unwrap_or(p)), "kind": "convert",
             "impl": {"converts": first[i].is_some(), "same_twice": first[i] == second[i], "same_threaded": first[i] == threaded[i],
-                     "same_fresh_process": h1.as_ref().map(|h| fresh.get(p) == Some(h)), "bytes": first[i].as_ref().map(|t| t.len())}}));
+                     "same_fresh_process": h1.as_ref().map(|h| fresh.get(p) == Some(h) && !fresh_disagree.contains(p)), "bytes": first[i].as_ref().map(|t| t.len())}}));
     }
     // ---------- reference models shipped next to the projects
     for (proj, file) in [("cubo", "cubo"), ("casoA", "caso_a"), ("e4h_medianeras", "e4h_medianeras"), ("ejemploviv_unif", "ejemploviv_unif"),
